@@ -15,6 +15,7 @@ from __future__ import annotations
 
 import collections
 import importlib
+import os
 import math
 import signal
 import traceback
@@ -396,6 +397,15 @@ def show(x, depth=0):
     return repr(x)[:120]
 
 
+class PyExcMarker:
+    def __init__(self, exc):
+        self.exc = exc
+
+
+def raised_log(I):
+    return getattr(I, "override_raises", [])
+
+
 class Patch:
     """install native stubs for the contract overrides of a target"""
 
@@ -558,29 +568,86 @@ def replay_path(target, I, env, model, outcome):
 
     live = resolve(target.func)
     try:
-        for qn in target.overrides:
+        import builtins as _bi
+        import sys as _sys
+        import types as _types
+
+        scope = _sys.modules.get(live.__module__)
+        used = {qn.split("@")[0] for qn, _ in log}
+        patched = set()
+        seen_real = {}
+        resolved = []
+        for qn in sorted(target.overrides, key=lambda q: (q.split("@")[0] not in used, q)):
             base = qn.split("@")[0]
-            if ":" not in base:
+            if ":" not in base or base == target.func:
                 continue
             try:
                 owner, name = resolve_owner(base)
+                real = owner.__dict__[name] if isinstance(owner, type) and name in owner.__dict__ else getattr(owner, name)
             except Exception:
                 continue
+            resolved.append((base, owner, name, real))  # resolve everything BEFORE patching anything
+        for base, owner, name, real in resolved:
+            if id(real) in seen_real:
+                # another key of the contract table names the same callee: share its stub's queue
+                queues.setdefault(seen_real[id(real)], []).extend(queues.pop(base, []))
+                patched.add(base)
+                continue
+            seen_real[id(real)] = base
 
             def stub(*a, __q=base, **kw):
                 calls.append(__q)
                 q = queues.get(__q, [])
                 if not q:
+                    if os.environ.get("PYVC_DEBUG"):
+                        print("native stub: empty queue for", __q, {k: len(v) for k, v in queues.items()}, file=_sys.stderr)
                     return None
                 r = q.pop(0)
+                if isinstance(r, PyExcMarker):
+                    raise r.exc
                 try:
                     return Nativizer(I, model, pre=False).nat(r) if not isinstance(r, SObj) or r.live is None else r.live
                 except CannotNativize:
                     return None
 
-            if base == target.func:
-                continue  # the target itself (recursive-call contracts) cannot be stubbed
-            patch.set(owner, name, stub)
+            if isinstance(real, property):
+                patch.set(owner, name, property(lambda self_, __s=stub: __s(self_)))
+                patched.add(base)
+                continue
+            if isinstance(owner, type):
+                patch.set(owner, name, stub)
+                patched.add(base)
+                continue
+            # a module-level function: replace every binding of that very object reachable from the
+            # target's module (its own globals and the attributes of the modules it imports)
+            hit = False
+            if scope is not None:
+                for gname, gval in list(scope.__dict__.items()):
+                    if gval is real:
+                        patch.set(scope, gname, stub)
+                        hit = True
+                    elif isinstance(gval, _types.ModuleType):
+                        for n2, v2 in list(gval.__dict__.items()):
+                            if v2 is real:
+                                patch.set(gval, n2, stub)
+                                hit = True
+                if getattr(_bi, getattr(real, "__name__", ""), None) is real:
+                    patch.set(scope, real.__name__, stub)
+                    hit = True
+            if hit:
+                patched.add(base)
+        # contract calls that raised on this path must raise natively too
+        for qn, r in raised_log(I):
+            queues.setdefault(qn, [])
+        real_ok = set()
+        for qn_, ov_ in target.overrides.items():
+            if getattr(ov_, "native_real", False):
+                real_ok.add(qn_.split("@")[0].split(":")[-1])
+        missing = sorted(q for q in used if q not in patched and ":" in q and q.split(":")[-1] not in real_ok)
+        if missing:
+            out["note"] = f"callee contracts used on this path could not be installed natively: {missing}"
+            patch.undo()
+            return out
 
         def on_alarm(signum, frame):
             raise TimeoutError("native replay timeout")
@@ -603,7 +670,9 @@ def replay_path(target, I, env, model, outcome):
     finally:
         patch.undo()
     if observed[0] == "raise":
-        out["observed"] = {"raised": type(observed[1]).__name__, "message": str(observed[1])[:200]}
+        tb = traceback.extract_tb(observed[1].__traceback__)
+        out["observed"] = {"raised": type(observed[1]).__name__, "message": str(observed[1])[:200],
+                           "at": [f"{os.path.basename(f.filename)}:{f.lineno} {f.line}" for f in tb[-3:]]}
     else:
         out["observed"] = {"returned": show(observed[1])}
     # compare with the prediction of the symbolic path
